@@ -73,7 +73,7 @@ def _job(args):
 
 
 LEMMA_FILES = {"C02": ["LinearODE.lean"], "C04": ["LinearODE.lean"], "C05": ["LinearODE.lean"], "C08": ["LinearODE.lean"], "C06": ["Taylor.lean"],
-               "C07": ["TrigMono.lean"], "C03": ["RotVec.lean", "SO3Cover.lean"], "C01": ["SO3Cover.lean"]}
+               "C07": ["TrigMono.lean", "SO3Surj.lean"], "C03": ["RotVec.lean", "SO3Cover.lean", "SO3Surj.lean"], "C01": ["SO3Cover.lean", "SO3Surj.lean"]}
 
 
 def lean_results(prop):
